@@ -3,7 +3,8 @@ C13 — External sort never hides I/O failures and leaves no temporary files beh
 
 Theorems about `Biogo.MorassConc.sys` with its fault oracle: the n-th execution of one kind of
 file-system / gob operation (temporary file creation, Encode, Sync, Seek, Decode in Finalise,
-Decode in Pull, Close, Remove) fails; `Reach` quantifies over every interleaving; `conc`
+Decode in Pull, Close, Remove) fails — since the third wave a list of such faults, armed one
+after the other (`flt : Fault` below is any such list; `[]` = no fault); `Reach` quantifies over every interleaving; `conc`
 selects the sequential or the concurrent mode.
 -/
 import Biogo.Model.MorassConc
@@ -28,9 +29,9 @@ theorem fault_surfaces (c : Nat) (hc : 1 ≤ c) (conc ac acl : Bool) (cy : Cycle
     [1 2] fails on its second element (`encode:1`) and is held before returning its buffer until
     the writer of [3 4] has synced.  The model (with the fix) reports the error from `Push`. -/
 example : ∃ s, Reach (sys true 2 false false
-      (Cycle.ops ⟨[⟨2, 0⟩, ⟨1, 0⟩, ⟨4, 0⟩, ⟨3, 0⟩, ⟨5, 0⟩], 6, false⟩) (some (.encode, 1))) s
+      (Cycle.ops ⟨[⟨2, 0⟩, ⟨1, 0⟩, ⟨4, 0⟩, ⟨3, 0⟩, ⟨5, 0⟩], 6, false⟩) [(.encode, 1)]) s
     ∧ finished s = true ∧ (s.outs.map (·.res)).contains .ioerr = true := by
-  let S := sys true 2 false false (Cycle.ops ⟨[⟨2, 0⟩, ⟨1, 0⟩, ⟨4, 0⟩, ⟨3, 0⟩, ⟨5, 0⟩], 6, false⟩) (some (.encode, 1))
+  let S := sys true 2 false false (Cycle.ops ⟨[⟨2, 0⟩, ⟨1, 0⟩, ⟨4, 0⟩, ⟨3, 0⟩, ⟨5, 0⟩], 6, false⟩) [(.encode, 1)]
   let sched := [0, 0, 0, 0, 0, 0, 0, 1, 0, 1, 1, 1, 2, 2, 2, 2, 2, 2, 0]
   have h : (runFrom S S.init sched).isSome = true := by decide
   obtain ⟨s, hs⟩ := Option.isSome_iff_exists.mp h
@@ -43,9 +44,9 @@ example : ∃ s, Reach (sys true 2 false false
 /-- a fault that is injected does fire and is reported: every single temp-file creation of a
     three-run workload in sequential mode (decided by evaluation of the model) -/
 example : ∀ k ∈ [0, 1, 2],
-    ((finish (sys false 2 false false (Cycle.ops ⟨[⟨2, 0⟩, ⟨1, 0⟩, ⟨4, 0⟩, ⟨3, 0⟩, ⟨5, 0⟩], 6, true⟩) (some (.tempfile, k)))
+    ((finish (sys false 2 false false (Cycle.ops ⟨[⟨2, 0⟩, ⟨1, 0⟩, ⟨4, 0⟩, ⟨3, 0⟩, ⟨5, 0⟩], 6, true⟩) [(.tempfile, k)])
         actors 400 (initState false 2 false false (Cycle.ops ⟨[⟨2, 0⟩, ⟨1, 0⟩, ⟨4, 0⟩, ⟨3, 0⟩, ⟨5, 0⟩], 6, true⟩)
-          (some (.tempfile, k)))).outs.map (·.res)).contains .ioerr = true := by
+          [(.tempfile, k)])).outs.map (·.res)).contains .ioerr = true := by
   decide
 
 /-- **CleanUp** removes the temporary directory (`os.RemoveAll`, by contract). -/
@@ -56,7 +57,7 @@ theorem cleanup_removes_dir (s : CState) : (cleanUp s).dirExists = false ∧ (cl
     cycle pulled to io.EOF (`pulls > pushes`), memory-only or spilled, either mode, any schedule. -/
 theorem autoclean_drain_removes_dir (c : Nat) (hc : 1 ≤ c) (conc ac : Bool) (cy : Cycle)
     (hdrain : cy.pushes.length < cy.pulls) {s : CState}
-    (hr : Reach (sys conc c ac true cy.ops none) s) (hfin : finished s = true) :
+    (hr : Reach (sys conc c ac true cy.ops []) s) (hfin : finished s = true) :
     s.dirExists = false := by
   have hacl : s.autoClean = true := autoClean_const hr
   apply (reach_EofDir hr).2 hacl
@@ -81,7 +82,7 @@ theorem autoclean_drain_removes_dir (c : Nat) (hc : 1 ≤ c) (conc ac : Bool) (c
     AutoClean the directory itself is gone, `autoclean_drain_removes_dir`). -/
 theorem autoclear_drain_no_runs (c : Nat) (hc : 1 ≤ c) (conc : Bool) (cy : Cycle)
     (hdrain : cy.pushes.length < cy.pulls) {s : CState}
-    (hr : Reach (sys conc c true false cy.ops none) s) (hfin : finished s = true) :
+    (hr : Reach (sys conc c true false cy.ops []) s) (hfin : finished s = true) :
     s.onDisk = 0 := by
   obtain ⟨hfiles, hcnt⟩ := finished_no_files (reach_CInv c true cy hc hr) (reach_NoFault hr).2.2 hfin hdrain
   have := (reach_DiskInv hr).2.2.2
@@ -90,8 +91,8 @@ theorem autoclear_drain_no_runs (c : Nat) (hc : 1 ≤ c) (conc : Bool) (cy : Cyc
 
 /-- non-vacuity of the residue theorems: run files do exist on the way (one after the first
     writer has created its temporary file) -/
-example : ((runSkipFrom (sys false 2 true false (Cycle.ops ⟨[⟨2, 0⟩, ⟨1, 0⟩, ⟨4, 0⟩, ⟨3, 0⟩, ⟨5, 0⟩], 6, false⟩) none)
-      (initState false 2 true false (Cycle.ops ⟨[⟨2, 0⟩, ⟨1, 0⟩, ⟨4, 0⟩, ⟨3, 0⟩, ⟨5, 0⟩], 6, false⟩) none)
+example : ((runSkipFrom (sys false 2 true false (Cycle.ops ⟨[⟨2, 0⟩, ⟨1, 0⟩, ⟨4, 0⟩, ⟨3, 0⟩, ⟨5, 0⟩], 6, false⟩) [])
+      (initState false 2 true false (Cycle.ops ⟨[⟨2, 0⟩, ⟨1, 0⟩, ⟨4, 0⟩, ⟨3, 0⟩, ⟨5, 0⟩], 6, false⟩) [])
       [0, 0, 0, 0, 1]).1.onDisk = 1) := by
   decide
 
